@@ -260,3 +260,15 @@ CHECKS["C06"] = {
     "outside": ["the update goroutine / channel plumbing (updateInjector, newUser loop)", "the responses sessions would emit for the queued state updates (decided separately by C02 for the same update types)"],
     "assumptions": [],
 }
+
+CHECKS["C07"] = {
+    "explanation": "Effect-ordering protocol around the message store and the index transaction, with failing steps and crash points as symbolic variables: connector-driven message creation / update / deletion (user.apply -> applyMessagesCreated / applyMessageUpdated / applyMessageDeleted) run against stubs that log every externally visible effect (store write/delete, commit); for every prefix of that log the start-up procedure (user.deleteAllMessagesMarkedDeleted, user.cleanupStaleStoreData - executed symbolically on the post-crash state) must leave every listed message fetchable, no cache file without a row and no message marked deleted.",
+    "harnesses": [
+        {"name": "crash", "pkg": "internal/backend", "pkgname": "backend", "entry": "VerifC07Crash", "files": ["zz_verif_backend.go"], "with": BACKEND_WITH,
+         "params": {"quick": grid(faults=[0, 1]), "thorough": grid(faults=[0, 1, 2])},
+         "cover": ["op-ok", "crash-point"]},
+    ],
+    "stubs": ["internal/verifdb: Write is atomic and durable at commit, rolled back on error (contract of sqlite3 wrapTx - SQLite itself is outside)", "store.Store stub: each Set/Delete is atomic and durable in order"],
+    "outside": ["durability itself (SQLite WAL, fsync, the file system)", "process kill inside a store write (torn file: C09)", "mailbox create/delete/rename and client commands (APPEND ordering is decided under C20's harness obligations 'stored bytes present when OK')"],
+    "assumptions": ["each logged effect is atomic and durable in order; a failed transaction function leaves no trace"],
+}
